@@ -1,8 +1,837 @@
-/- C05 Model, parts (b)–(e): transaction layers, cursor merge, bucket encoding, block log. core-only. -/
-import BV.Common.Hex
-import BV.C05.Model
-namespace BV.C05.DbModel
+/-
+C05 Model, parts (b)–(e): transaction layers over a snapshot, cache commit / flush, bucket encoding,
+block log (record format, roll-over, rollback, write-cursor row, reconcile, prune), and the
+history interpreter the driver runs. core-only.
 
-def runDb (_ : List String) : String := "unimplemented"
+Pure pieces that the theorems talk about come first (`record`, `readRecord`, `txGet`, `commitCache`,
+`flushCache`, `reconcileAction`, key encodings); the interpreter at the end sequences them exactly in
+the order of the Go code, one modelled I/O call at a time, so that "the n-th call fails" and "the
+directory is copied before the n-th call" have a meaning in the model.
+-/
+import BV.Common.Hex
+import BV.Common.Sha256
+import BV.C05.Model
+namespace BV.C05
+open BV.Hex
+
+abbrev KV := List (Key × Val)
+abbrev Bytes := List UInt8
+
+/-! ### encodings -/
+
+def le32 (n : Nat) : Bytes := natLE (n % 2^32) 4
+def be32 (n : Nat) : Bytes := natBE (n % 2^32) 4
+
+def str (s : String) : Bytes := s.toUTF8.toList
+
+def bucketIndexPrefix : Bytes := str "bidx"
+def curBucketIDKeyName : Bytes := str "bidx-cbid"
+def blockIdxBucketName : Bytes := str "ffldb-blockidx"
+def writeLocKeyName : Bytes := str "ffldb-writeloc"
+def metadataBucketID : Bytes := [0, 0, 0, 0]
+def blockIdxBucketID : Bytes := [0, 0, 0, 1]
+
+/-- `<bucketindexprefix><parentbucketid><bucketname>` -/
+def bucketIndexKey (parent : Bytes) (name : Bytes) : Bytes := bucketIndexPrefix ++ parent ++ name
+/-- `<bucketid><key>` -/
+def bucketizedKey (id : Bytes) (k : Bytes) : Bytes := id ++ k
+
+/-- CRC-32 (Castagnoli), bitwise -/
+def crcStep (c : Nat) : Nat := if c % 2 = 1 then (c / 2) ^^^ 0x82F63B78 else c / 2
+def crcByte (c : Nat) (b : UInt8) : Nat :=
+  crcStep (crcStep (crcStep (crcStep (crcStep (crcStep (crcStep (crcStep (c ^^^ b.toNat))))))))
+def crc32c (bs : Bytes) : Nat := (bs.foldl crcByte 0xFFFFFFFF) ^^^ 0xFFFFFFFF
+
+/-- write-cursor row: file | offset | crc32c(file|offset), all little endian -/
+def serializeWriteRow (crc : Bytes → Nat) (file off : Nat) : Bytes :=
+  le32 file ++ le32 off ++ le32 (crc (le32 file ++ le32 off))
+
+def deserializeWriteRow (crc : Bytes → Nat) (row : Bytes) : Option (Nat × Nat) :=
+  if crc (row.take 8) = leToNat ((row.drop 8).take 4) then
+    some (leToNat (row.take 4), leToNat ((row.drop 4).take 4))
+  else none
+
+/-- block location row: file | offset | full record length -/
+def serializeBlockLoc (file off len : Nat) : Bytes := le32 file ++ le32 off ++ le32 len
+def deserializeBlockLoc (row : Bytes) : Nat × Nat × Nat :=
+  (leToNat (row.take 4), leToNat ((row.drop 4).take 4), leToNat ((row.drop 8).take 4))
+
+/-! ### block log records -/
+
+/-- the record `writeBlock` appends: network | length | bytes | checksum (big endian) -/
+def record (crc : Bytes → Nat) (net : Nat) (b : Bytes) : Bytes :=
+  le32 net ++ le32 b.length ++ b ++ be32 (crc (le32 net ++ le32 b.length ++ b))
+
+inductive ReadRes where
+  | ok (b : Bytes)
+  | ioError        -- short read
+  | corruption     -- checksum mismatch
+  | wrongNet
+  deriving DecidableEq, Repr
+
+/-- `readBlock`: read `len` bytes at `off` of the file, verify checksum and network, strip framing -/
+def readRecord (crc : Bytes → Nat) (net : Nat) (file : Bytes) (off len : Nat) : ReadRes :=
+  let data := (file.drop off).take len
+  if data.length < len then .ioError else
+  if beToNat (data.drop (len - 4)) ≠ crc (data.take (len - 4)) then .corruption else
+  if leToNat (data.take 4) ≠ net % 2^32 then .wrongNet else
+  .ok ((data.take (len - 4)).drop 8)
+
+/-- `readBlockRegion`: raw read inside the record, no checks -/
+def readRegion (file : Bytes) (recOff off n : Nat) : Option Bytes :=
+  let data := (file.drop (recOff + 8 + off)).take n
+  if data.length < n then none else some data
+
+/-- roll-over decision of `writeBlock` (uint32 arithmetic) -/
+def needsRollover (curOff fullLen maxSize : Nat) : Bool :=
+  let fin := (curOff + fullLen) % 2^32
+  fin < curOff || fin > maxSize
+
+/-! ### reconcile -/
+
+inductive Reconcile where
+  | clean
+  | truncateTo (file off : Nat)     -- surplus block data: roll back to the metadata's cursor
+  | refuse                          -- metadata ahead of block data: corruption
+  deriving DecidableEq, Repr
+
+/-- `reconcileDB`: compare the scanned end of block data with the write cursor in the metadata -/
+def reconcileAction (dataFile dataOff metaFile metaOff : Nat) : Reconcile :=
+  if dataFile > metaFile ∨ (dataFile = metaFile ∧ dataOff > metaOff) then .truncateTo metaFile metaOff
+  else if dataFile < metaFile ∨ (dataFile = metaFile ∧ dataOff < metaOff) then .refuse
+  else .clean
+
+/-! ### layers -/
+
+/-- what a transaction sees of the cache + leveldb at `begin` (`dbCacheSnapshot`) -/
+structure Snap where
+  ldb : KV
+  cKeys : KV
+  cRem : KV
+
+def Snap.get (s : Snap) (k : Key) : Option Val :=
+  if (lookup cmpB k s.cRem).isSome then none else
+  match lookup cmpB k s.cKeys with
+  | some v => some v
+  | none => lookup cmpB k s.ldb
+
+/-- the flat map a snapshot denotes -/
+def Snap.flat (s : Snap) : KV :=
+  applyLayer cmpB s.cKeys (s.cRem.map (·.1)) s.ldb
+
+/-- transaction reads: pending removes, pending keys (writable only), then the snapshot -/
+def txGet (writable : Bool) (pKeys pRem : KV) (s : Snap) (k : Key) : Option Val :=
+  if writable && (lookup cmpB k pRem).isSome then none else
+  match (if writable then lookup cmpB k pKeys else none) with
+  | some v => some v
+  | none => s.get k
+
+/-- `putKey` / `deleteKey` on the pending layer -/
+def pendPut (pKeys pRem : KV) (k : Key) (v : Val) : KV × KV :=
+  (insertSorted cmpB k v pKeys, eraseKey cmpB k pRem)
+def pendDel (pKeys pRem : KV) (k : Key) : KV × KV :=
+  (eraseKey cmpB k pKeys, insertSorted cmpB k [] pRem)
+
+/-- `commitTx`, no-flush path: fold the pending layer into the cache layer -/
+def commitCache (cKeys cRem pKeys pRem : KV) : KV × KV :=
+  let cRem1 := pKeys.foldl (fun m kv => eraseKey cmpB kv.1 m) cRem
+  let cKeys1 := pKeys.foldl (fun m kv => insertSorted cmpB kv.1 kv.2 m) cKeys
+  let cKeys2 := pRem.foldl (fun m kv => eraseKey cmpB kv.1 m) cKeys1
+  let cRem2 := pRem.foldl (fun m kv => insertSorted cmpB kv.1 kv.2 m) cRem1
+  (cKeys2, cRem2)
+
+/-- `commitTreaps`: apply a layer to leveldb (one leveldb transaction) -/
+def applyToLdb (ldb keys rem : KV) : KV :=
+  rem.foldl (fun m kv => eraseKey cmpB kv.1 m) (keys.foldl (fun m kv => insertSorted cmpB kv.1 kv.2 m) ldb)
+
+def kvSize (m : KV) : Nat := m.foldl (fun a kv => a + (nodeFieldsSize + kv.1.length + kv.2.length)) 0
+
+/-- `needsFlush` by size (the time criterion is disabled in the harness) -/
+def needsFlush (s : Snap) (maxSize : Nat) : Bool :=
+  (kvSize s.cKeys + kvSize s.cRem) * 3 / 2 > maxSize
+
+/-! ### cursor at the Spec level: navigation in the sorted view of one bucket -/
+
+def hasPrefix (p k : Bytes) : Bool := k.take p.length == p
+
+/-- the entries a full cursor of bucket `id` ranges over: its keys, then its nested buckets -/
+def bucketView (flat : KV) (id : Bytes) : KV :=
+  flat.filter (fun kv => hasPrefix id kv.1 || hasPrefix (bucketIndexPrefix ++ id) kv.1)
+
+def keysView (flat : KV) (id : Bytes) : KV := flat.filter (fun kv => hasPrefix id kv.1)
+def bucketsView (flat : KV) (id : Bytes) : KV :=
+  flat.filter (fun kv => hasPrefix (bucketIndexPrefix ++ id) kv.1)
+
+inductive CurOp where
+  | first | last | next | prev | seek (k : Key)
+
+/-- Spec cursor: the position is a key; moves are successor / predecessor in the current view -/
+def specCursor (view : KV) (cur : Option Key) : CurOp → Option (Key × Val)
+  | .first => view.head?
+  | .last => view.getLast?
+  | .seek k => firstGE cmpB k view
+  | .next => match cur with | some c => firstGT cmpB c view | none => none
+  | .prev => match cur with | some c => lastLT cmpB c view | none => none
+
+end BV.C05
+
+/-! ## history interpreter -/
+namespace BV.C05.DbModel
+open BV.Hex BV.C05
+
+structure Tx where
+  writable : Bool
+  snap : Snap
+  pKeys : KV := []
+  pRem : KV := []
+  pBlocks : List (Nat × Nat) := []     -- (id, len) in store order
+  pDel : List Nat := []                -- block files to delete on commit
+
+structure Cur where
+  tx : String
+  bucket : Bytes
+  cur : Option Key                     -- raw key
+
+structure Img where
+  ldb : KV
+  files : List (Nat × Bytes)
+
+structure Db where
+  ldb : KV := []
+  cKeys : KV := []
+  cRem : KV := []
+  files : List (Nat × Bytes) := []     -- ascending file numbers
+  wcFile : Nat := 0
+  wcOff : Nat := 0
+  curOpen : Bool := false              -- write-cursor file handle open
+  openRead : List Nat := []            -- read handles
+  synced : List (Nat × Nat) := []      -- harness bookkeeping: fsynced length per file touched
+  maxFile : Nat
+  maxCache : Nat
+  net : Nat := 0xd9b4bef9
+  txs : List (String × Tx) := []
+  curs : List (String × Cur) := []
+  blockIds : List (Nat × Nat) := []    -- (id, len) in first-seen order
+  -- fault: kind, n, seen
+  fKind : String := ""
+  fN : Nat := 0
+  fSeen : Nat := 0
+  fFired : Bool := false
+  -- image capture
+  iKind : String := ""
+  iN : Nat := 0
+  iSeen : Nat := 0
+  iStrict : Bool := false
+  img : Option Img := none
+
+abbrev M := StateM Db
+
+def blockBytes (id n : Nat) : Bytes :=
+  (List.range n).map (fun i => UInt8.ofNat ((id * 131 + i * 7 + i / 251) % 256))
+
+/-- serialized header of protocol block `id` and its hash -/
+def blockHeader (id : Nat) : Bytes :=
+  le32 1 ++ List.replicate 64 0 ++ le32 1700000000 ++ le32 0 ++ le32 id
+def blockHash (id : Nat) : Bytes := BV.Sha256.hash2List (blockHeader id)
+
+def fileGet (fs : List (Nat × Bytes)) (n : Nat) : Option Bytes := (fs.find? (·.1 == n)).map (·.2)
+def fileSet (fs : List (Nat × Bytes)) (n : Nat) (b : Bytes) : List (Nat × Bytes) :=
+  let rec ins : List (Nat × Bytes) → List (Nat × Bytes)
+    | [] => [(n, b)]
+    | (m, c) :: r => if n < m then (n, b) :: (m, c) :: r else if n = m then (n, b) :: r else (m, c) :: ins r
+  ins fs
+def fileDel (fs : List (Nat × Bytes)) (n : Nat) : List (Nat × Bytes) := fs.filter (·.1 != n)
+
+def syncedLen (d : Db) (n : Nat) (full : Nat) : Nat :=
+  match d.synced.find? (·.1 == n) with
+  | some (_, l) => l
+  | none => full
+
+def strictFiles (d : Db) : List (Nat × Bytes) :=
+  d.files.map (fun (n, b) => (n, b.take (syncedLen d n b.length)))
+
+/-- one modelled I/O call of the block store: image capture first, then the fault check -/
+def io (kind : String) : M Bool := do
+  let d ← get
+  let d := if d.iKind == kind && d.img.isNone then
+      let seen := d.iSeen + 1
+      if seen == d.iN then
+        { d with iSeen := seen, img := some ⟨d.ldb, if d.iStrict then strictFiles d else d.files⟩ }
+      else { d with iSeen := seen }
+    else d
+  if d.fKind == kind then
+    let seen := d.fSeen + 1
+    if seen == d.fN then
+      set { d with fSeen := seen, fFired := true }
+      return false
+    else
+      set { d with fSeen := seen }
+      return true
+  else
+    set d
+    return true
+
+def touch (n : Nat) : M Unit := modify fun d =>
+  if (d.synced.find? (·.1 == n)).isSome then d
+  else { d with synced := (n, ((fileGet d.files n).getD []).length) :: d.synced }
+
+def markSynced (n : Nat) : M Unit := modify fun d =>
+  { d with synced := (n, ((fileGet d.files n).getD []).length) :: d.synced.filter (·.1 != n) }
+
+/-- `openWriteFileFunc`: O_CREATE -/
+def openWrite (n : Nat) : M Bool := do
+  if !(← io "openw") then return false
+  modify fun d => if (fileGet d.files n).isSome then d else { d with files := fileSet d.files n [] }
+  touch n
+  return true
+
+/-- `deleteFileFunc` (refuses an open read handle, fails on a missing file) -/
+def removeFile (n : Nat) : M Bool := do
+  if !(← io "remove") then return false
+  let d ← get
+  if d.openRead.contains n then return false
+  if (fileGet d.files n).isNone then return false
+  set { d with files := fileDel d.files n }
+  return true
+
+/-- `writeData`: WriteAt at the cursor; a failing call leaves half of the data (torn write) -/
+def writeData (data : Bytes) : M Bool := do
+  let ok ← io "writeat"
+  modify fun d =>
+    let data := if ok then data else data.take (data.length / 2)
+    let old := (fileGet d.files d.wcFile).getD []
+    let new := old.take d.wcOff ++ List.replicate (d.wcOff - old.length) 0 ++ data ++ old.drop (d.wcOff + data.length)
+    { d with files := fileSet d.files d.wcFile new, wcOff := d.wcOff + data.length }
+  return ok
+
+/-- `writeBlock`; returns the location row on success -/
+def writeBlock (b : Bytes) : M (Option (Nat × Nat × Nat)) := do
+  let d ← get
+  let fullLen := b.length + 12
+  if needsRollover d.wcOff fullLen d.maxFile then
+    if d.curOpen then let _ ← io "close"
+    modify fun d => { d with curOpen := false, wcFile := d.wcFile + 1, wcOff := 0 }
+  let d ← get
+  if !d.curOpen then
+    if !(← openWrite d.wcFile) then return none
+    modify fun d => { d with curOpen := true }
+  let d ← get
+  let orig := d.wcOff
+  let rec' := record crc32c d.net b
+  -- four writes: network, length, block, checksum
+  if !(← writeData (rec'.take 4)) then return none
+  if !(← writeData ((rec'.drop 4).take 4)) then return none
+  if !(← writeData ((rec'.drop 8).take b.length)) then return none
+  if !(← writeData (rec'.drop (8 + b.length))) then return none
+  let d ← get
+  return some (d.wcFile, orig, fullLen)
+
+/-- `handleRollback` -/
+def handleRollback (oldFile oldOff : Nat) : M Unit := do
+  let d ← get
+  if d.wcFile == oldFile && d.wcOff == oldOff then return
+  if d.wcFile > oldFile then
+    if d.curOpen then let _ ← io "close"
+    modify fun d => { d with curOpen := false }
+  -- delete newer files, highest first; a failure aborts the rollback (cursor restored regardless)
+  let rec delLoop (fuel cur : Nat) : M Bool := do
+    match fuel with
+    | 0 => return true
+    | fuel + 1 =>
+      if cur > oldFile then
+        if !(← removeFile cur) then return false
+        delLoop fuel (cur - 1)
+      else return true
+  let okDel ← delLoop (d.wcFile - oldFile) d.wcFile
+  let finish : M Unit := modify fun d => { d with wcFile := oldFile, wcOff := oldOff }
+  if !okDel then finish; return
+  modify fun d => { d with wcFile := oldFile }
+  let d ← get
+  if !d.curOpen then
+    if !(← openWrite oldFile) then finish; return
+    modify fun d => { d with curOpen := true }
+  if !(← io "truncate") then finish; return
+  modify fun d =>
+    let old := (fileGet d.files oldFile).getD []
+    { d with files := fileSet d.files oldFile (old.take oldOff ++ List.replicate (oldOff - old.length) 0) }
+  if !(← io "sync") then finish; return
+  markSynced oldFile
+  finish
+
+/-- `syncBlocks` -/
+def syncBlocks : M Bool := do
+  let d ← get
+  if !d.curOpen then return true
+  if !(← io "sync") then return false
+  markSynced d.wcFile
+  return true
+
+/-- `dbCache.flush` -/
+def flush : M Bool := do
+  if !(← syncBlocks) then return false
+  modify fun d =>
+    if d.cKeys.isEmpty && d.cRem.isEmpty then d
+    else { d with ldb := applyToLdb d.ldb d.cKeys d.cRem, cKeys := [], cRem := [] }
+  return true
+
+def getTx (id : String) : M (Option Tx) := do return (← get).txs.lookup id
+def setTx (id : String) (t : Tx) : M Unit :=
+  modify fun d => { d with txs := (id, t) :: d.txs.filter (·.1 != id) }
+def dropTx (id : String) : M Unit :=
+  modify fun d => { d with txs := d.txs.filter (·.1 != id), curs := d.curs.filter (·.2.tx != id) }
+
+def Tx.get (t : Tx) (k : Key) : Option Val := txGet t.writable t.pKeys t.pRem t.snap k
+def Tx.put (t : Tx) (k : Key) (v : Val) : Tx :=
+  let (a, b) := pendPut t.pKeys t.pRem k v; { t with pKeys := a, pRem := b }
+def Tx.del (t : Tx) (k : Key) : Tx :=
+  let (a, b) := pendDel t.pKeys t.pRem k; { t with pKeys := a, pRem := b }
+
+/-- the flat map a transaction sees (Spec view) -/
+def Tx.flat (t : Tx) : KV :=
+  if t.writable then applyLayer cmpB t.pKeys (t.pRem.map (·.1)) t.snap.flat else t.snap.flat
+
+/-- `writePendingAndCommit` + `commitTx`.  Answers with the Spec on the one point where the code
+deviates from it (pending file deletions are executed first and are not undone when the commit
+fails later): `specAtomic` keeps the files in that case. -/
+def commit (id : String) : M String := do
+  let some t ← getTx id | return "notx"
+  dropTx id
+  if !t.writable then return "err:TxNotWritable"
+  let before ← get
+  let fail (code : String) : M String := do
+    -- Spec: a failed commit leaves the block files it wanted to delete in place
+    modify fun d => { d with files := (t.pDel.foldl (fun fs n =>
+      match fileGet before.files n with
+      | some b => if (fileGet fs n).isNone then fileSet fs n b else fs
+      | none => fs) d.files) }
+    return code
+  -- pending file deletions
+  for n in t.pDel do
+    modify fun d => { d with openRead := d.openRead.filter (· != n) }
+    if !(← removeFile n) then return ← fail "err:DriverSpecific"
+  let d ← get
+  let (oldFile, oldOff) := (d.wcFile, d.wcOff)
+  -- blocks
+  let mut t := t
+  for (bid, len) in t.pBlocks do
+    match ← writeBlock (blockBytes bid len) with
+    | none =>
+      handleRollback oldFile oldOff
+      return ← fail "err:DriverSpecific"
+    | some (f, o, l) =>
+      t := t.put (bucketizedKey blockIdxBucketID (blockHash bid)) (serializeBlockLoc f o l)
+  let d ← get
+  t := t.put (bucketizedKey metadataBucketID writeLocKeyName) (serializeWriteRow crc32c d.wcFile d.wcOff)
+  -- commitTx
+  if needsFlush t.snap d.maxCache then
+    if !(← flush) then return ← fail "err:DriverSpecific"
+    modify fun d => { d with ldb := applyToLdb d.ldb t.pKeys t.pRem }
+    return "ok"
+  modify fun d =>
+    let (a, b) := commitCache d.cKeys d.cRem t.pKeys t.pRem
+    { d with cKeys := a, cRem := b }
+  return "ok"
+
+/-- state of a freshly created database (`initDB`) -/
+def initLdb : KV :=
+  [ (bucketizedKey metadataBucketID writeLocKeyName, serializeWriteRow crc32c 0 0),
+    (bucketIndexKey metadataBucketID blockIdxBucketName, blockIdxBucketID),
+    (curBucketIDKeyName, blockIdxBucketID) ].foldl (fun m kv => insertSorted cmpB kv.1 kv.2 m) []
+
+/-- open an existing directory: scan block files, reconcile with the metadata -/
+def reopen : M String := do
+  modify fun d => { d with txs := [], curs := [], cKeys := [], cRem := [], curOpen := false,
+                           openRead := [], synced := [] }
+  let d ← get
+  let (sf, so) := match d.files.getLast? with
+    | some (n, b) => (n, b.length)
+    | none => (0, 0)
+  modify fun d => { d with wcFile := sf, wcOff := so }
+  let snap : Snap := ⟨d.ldb, [], []⟩
+  let some row := snap.get (bucketizedKey metadataBucketID writeLocKeyName) | return "open-err:Corruption"
+  let some (mf, mo) := deserializeWriteRow crc32c row | return "open-err:Corruption"
+  match reconcileAction sf so mf mo with
+  | .clean => return "ok"
+  | .refuse => return "open-err:Corruption"
+  | .truncateTo f o =>
+    handleRollback f o
+    return "ok"
+
+def pathBucket (t : Tx) (path : String) : Option Bytes :=
+  if path == "." then some metadataBucketID else
+  (path.splitOn "/").foldlM (fun id name => do
+    let name ← hexToList? name
+    t.get (bucketIndexKey id name)) metadataBucketID
+
+def valStr : Option Val → String
+  | some v => listToHexTok v
+  | none => "nil"
+
+def userKey (id : Bytes) (raw : Key) : Key × Bool :=
+  if hasPrefix bucketIndexPrefix raw then (raw.drop 8, true) else (raw.drop id.length, false)
+
+def kvOut (id : Bytes) (kv : Key × Val) : String :=
+  let (k, isB) := userKey id kv.1
+  listToHexTok k ++ "=" ++ (if isB then "nil" else listToHexTok kv.2)
+
+partial def dumpBucket (flat : KV) (id : Bytes) : String :=
+  let ks := (keysView flat id).map (kvOut id)
+  let bs := (bucketsView flat id).map (fun kv => listToHexTok (kv.1.drop 8) ++ dumpBucket flat kv.2)
+  "{" ++ ",".intercalate (ks ++ bs) ++ "}"
+
+/-- read a stored block through the index row -/
+def fetchBlock (d : Db) (t : Tx) (bid : Nat) : Except String Bytes :=
+  match t.pBlocks.find? (·.1 == bid) with
+  | some (_, len) => .ok (blockBytes bid len)
+  | none =>
+    match t.get (bucketizedKey blockIdxBucketID (blockHash bid)) with
+    | none => .error "err:BlockNotFound"
+    | some row =>
+      let (f, o, l) := deserializeBlockLoc row
+      match fileGet d.files f with
+      | none => .error "err:DriverSpecific"
+      | some fb =>
+        match readRecord crc32c d.net fb o l with
+        | .ok b => .ok b
+        | .ioError => .error "err:DriverSpecific"
+        | .corruption => .error "err:Corruption"
+        | .wrongNet => .error "err:DriverSpecific"
+
+def fetchRegion (d : Db) (t : Tx) (bid off len : Nat) : Except String Bytes :=
+  let endOff := (off + len) % 2^32
+  match t.pBlocks.find? (·.1 == bid) with
+  | some (_, blen) =>
+    if endOff < off || endOff > blen then .error "err:BlockRegionInvalid"
+    else .ok (((blockBytes bid blen).drop off).take len)
+  | none =>
+    match t.get (bucketizedKey blockIdxBucketID (blockHash bid)) with
+    | none => .error "err:BlockNotFound"
+    | some row =>
+      let (f, o, l) := deserializeBlockLoc row
+      if endOff < off || endOff > l then .error "err:BlockRegionInvalid" else
+      match fileGet d.files f with
+      | none => .error "err:DriverSpecific"
+      | some fb =>
+        match readRegion fb o off len with
+        | some b => .ok b
+        | none => .error "err:DriverSpecific"
+
+def exceptStr : Except String Bytes → String
+  | .ok b => listToHexTok b
+  | .error e => e
+
+def dumpAll (d : Db) (ldb : KV) (files : List (Nat × Bytes)) : String :=
+  let t : Tx := { writable := false, snap := ⟨ldb, d.cKeys, d.cRem⟩ }
+  let d' := { d with files := files }
+  let blocks := d.blockIds.filterMap (fun (bid, len) =>
+    if (t.get (bucketizedKey blockIdxBucketID (blockHash bid))).isNone then none else
+    some (toString bid ++ ":" ++ (match fetchBlock d' t bid with
+      | .ok b => if b == blockBytes bid len then "ok" else "DIFF"
+      | .error e => e) ++ ","))
+  dumpBucket t.flat metadataBucketID ++ "#" ++ String.join blocks
+
+def curMove (c : Cur) (t : Tx) (op : CurOp) : Cur × String :=
+  let view := bucketView t.flat c.bucket
+  let op := match op with
+    | .seek k => CurOp.seek (bucketizedKey c.bucket k)
+    | o => o
+  match specCursor view c.cur op with
+  | some kv => ({ c with cur := some kv.1 }, "1:" ++ kvOut c.bucket kv)
+  | none => ({ c with cur := none }, "0:~")
+
+/-- `DeleteBucket`: remove the keys and, recursively, the nested buckets of `child` -/
+partial def deleteTree (t : Tx) (ids : List Bytes) : Tx :=
+  match ids with
+  | [] => t
+  | cid :: rest =>
+    let flat := t.flat
+    let t1 := (keysView flat cid).foldl (fun t kv => t.del kv.1) t
+    let subs := bucketsView flat cid
+    let t2 := subs.foldl (fun t kv => t.del kv.1) t1
+    deleteTree t2 (subs.map (·.2) ++ rest)
+
+def nat? (s : String) : Option Nat := s.toNat?
+
+def bucketOp (kind id : String) (t : Tx) (b name : Bytes) : M (Option String) := do
+  if !t.writable then return some "err:TxNotWritable"
+  let bidx := bucketIndexKey b name
+  if kind == "xb" then
+    match t.get bidx with
+    | none => return some "err:BucketNotFound"
+    | some cid =>
+      setTx id ((deleteTree t [cid]).del bidx)
+      return some "ok"
+  else
+    if kind == "ci" && (t.get bidx).isSome then return some "ok"
+    if name.isEmpty then return some "err:BucketNameRequired"
+    if (t.get bidx).isSome then return some "err:BucketExists"
+    if b == metadataBucketID && name == blockIdxBucketName then
+      setTx id (t.put bidx blockIdxBucketID)
+      return some "ok"
+    let cur := beToNat ((t.get curBucketIDKeyName).getD [])
+    let nid := be32 (cur + 1)
+    setTx id ((t.put curBucketIDKeyName nid).put bidx nid)
+    return some "ok"
+
+def cursorOp (mv cid : String) (seek : Key) : M (Option String) := do
+  let d ← get
+  match d.curs.lookup cid with
+  | none => return some "nocursor"
+  | some c =>
+    match d.txs.lookup c.tx with
+    | none => return none
+    | some t =>
+      if mv == "D" then
+        match c.cur with
+        | none => return some "err:IncompatibleValue"
+        | some raw =>
+          if hasPrefix bucketIndexPrefix raw then return some "err:IncompatibleValue"
+          if !t.writable then return some "err:TxNotWritable"
+          setTx c.tx (t.del raw)
+          return some "ok"
+      else
+        let op := if mv == "F" then CurOp.first else if mv == "L" then .last
+                  else if mv == "N" then .next else if mv == "P" then .prev else .seek seek
+        let (c', out) := curMove c t op
+        modify fun d => { d with curs := (cid, c') :: d.curs.filter (·.1 != cid) }
+        return some out
+
+/-- a read through a block file handle: `open` when no handle exists yet, then `ReadAt` -/
+def readIo (file : Nat) : M Bool := do
+  let d ← get
+  if (fileGet d.files file).isNone then
+    -- openFile fails by itself; the hook still counts the attempt
+    let _ ← io "open"
+    return false
+  if !(file == d.wcFile && d.curOpen) && !d.openRead.contains file then
+    if !(← io "open") then return false
+    touch file
+    modify fun d => { d with openRead := file :: d.openRead }
+  io "readat"
+
+def blockLoc (t : Tx) (bid : Nat) : Option (Nat × Nat × Nat) :=
+  if (t.pBlocks.find? (·.1 == bid)).isSome then none
+  else (t.get (bucketizedKey blockIdxBucketID (blockHash bid))).map deserializeBlockLoc
+
+def fetchBlockM (t : Tx) (bid : Nat) : M String := do
+  match blockLoc t bid with
+  | some (f, _, _) =>
+    if !(← readIo f) then return "err:DriverSpecific"
+  | none => pure ()
+  return exceptStr (fetchBlock (← get) t bid)
+
+def fetchRegionM (t : Tx) (bid off len : Nat) : M String := do
+  let r := fetchRegion (← get) t bid off len
+  match blockLoc t bid, r with
+  | some (f, _, _), .ok _ => if !(← readIo f) then return "err:DriverSpecific"
+  | some (f, _, l), .error e =>
+    -- the region check precedes the read; a missing file is found at open time
+    if e == "err:DriverSpecific" && !((off + len) % 2^32 < off || (off + len) % 2^32 > l) then
+      let _ ← readIo f
+  | _, _ => pure ()
+  return exceptStr r
+
+def pruneBlocks (id : String) (t : Tx) (target : Nat) : M String := do
+  if !t.writable then return "err:TxNotWritable"
+  let d ← get
+  if target < d.maxFile then return "err:other"
+  match d.files.head?, d.files.getLast? with
+  | some (first, _), some (last, lb) =>
+    if first == last then return "[]"
+    let total := lb.length + d.maxFile * (last - first)
+    if total ≤ target then return "[]"
+    -- files first, first+1, … until the estimate drops to the target
+    let rec pick (fuel i total : Nat) (acc : List Nat) : List Nat :=
+      match fuel with
+      | 0 => acc
+      | fuel + 1 =>
+        if i < last then
+          let acc := acc ++ [i]
+          let total := total - d.maxFile
+          if total ≤ target then acc else pick fuel (i + 1) total acc
+        else acc
+    let dels := pick (last - first) first total []
+    let rows := keysView t.flat blockIdxBucketID
+    let hit := rows.filter (fun kv => dels.contains (deserializeBlockLoc kv.2).1)
+    let t' := hit.foldl (fun t kv => t.del kv.1) { t with pDel := t.pDel ++ dels }
+    setTx id t'
+    let ids := d.blockIds.filterMap (fun (bid, _) =>
+      if hit.any (fun kv => kv.1 == bucketizedKey blockIdxBucketID (blockHash bid)) then some bid else none)
+    let sorted := ids.toArray.qsort (· < ·) |>.toList
+    return "[" ++ "+".intercalate (sorted.map toString) ++ "]"
+  | _, _ => return "[]"
+
+def step (op : String) : M (Option String) := do
+  let f := op.splitOn ":"
+  let withTx (id : String) (k : Tx → M (Option String)) : M (Option String) := do
+    match ← getTx id with
+    | some t => k t
+    | none => return none
+  let withBucket (id path : String) (k : Tx → Bytes → M (Option String)) : M (Option String) :=
+    withTx id fun t =>
+      match pathBucket t path with
+      | some b => k t b
+      | none => return some "nobucket"
+  match f with
+  | ["bw", id] =>
+    let d ← get
+    setTx id { writable := true, snap := ⟨d.ldb, d.cKeys, d.cRem⟩ }
+    return some "ok"
+  | ["br", id] =>
+    let d ← get
+    setTx id { writable := false, snap := ⟨d.ldb, d.cKeys, d.cRem⟩ }
+    return some "ok"
+  | ["co", id] => return some (← commit id)
+  | ["rb", id] => withTx id fun _ => do dropTx id; return some "ok"
+  | ["p", id, path, k, v] =>
+    match hexToList? k, hexToList? v with
+    | some k, some v => withBucket id path fun t b => do
+        if !t.writable then return some "err:TxNotWritable"
+        if k.isEmpty then return some "err:KeyRequired"
+        setTx id (t.put (bucketizedKey b k) v)
+        return some "ok"
+    | _, _ => return none
+  | ["g", id, path, k] =>
+    match hexToList? k with
+    | some k => withBucket id path fun t b =>
+        return some (if k.isEmpty then "nil" else valStr (t.get (bucketizedKey b k)))
+    | none => return none
+  | ["d", id, path, k] =>
+    match hexToList? k with
+    | some k => withBucket id path fun t b => do
+        if !t.writable then return some "err:TxNotWritable"
+        if k.isEmpty then return some "ok"
+        setTx id (t.del (bucketizedKey b k))
+        return some "ok"
+    | none => return none
+  | ["cb", id, path, name] | ["ci", id, path, name] | ["xb", id, path, name] =>
+    match hexToList? name with
+    | some name => withBucket id path fun t b => bucketOp f.head! id t b name
+    | none => return none
+  | ["cu", id, cid, path] =>
+    withBucket id path fun _ b => do
+      modify fun d => { d with curs := (cid, ⟨id, b, none⟩) :: d.curs.filter (·.1 != cid) }
+      return some "ok"
+  | ["fe", id, path] => withBucket id path fun t b => return some (dumpBucket t.flat b)
+  | ["F", cid] | ["L", cid] | ["N", cid] | ["P", cid] | ["D", cid] => cursorOp f.head! cid []
+  | ["S", cid, k] =>
+    match hexToList? k with
+    | some k => cursorOp "S" cid k
+    | none => return none
+  | ["sb", id, bid, len] =>
+    match nat? bid, nat? len with
+    | some bid, some len => withTx id fun t => do
+      modify fun d => if (d.blockIds.find? (·.1 == bid)).isSome then d
+                      else { d with blockIds := d.blockIds ++ [(bid, len)] }
+      if !t.writable then return some "err:TxNotWritable"
+      if (t.pBlocks.find? (·.1 == bid)).isSome ||
+          (t.get (bucketizedKey blockIdxBucketID (blockHash bid))).isSome then
+        return some "err:BlockExists"
+      setTx id { t with pBlocks := t.pBlocks ++ [(bid, len)] }
+      return some "ok"
+    | _, _ => return none
+  | ["hb", id, bid] =>
+    match nat? bid with
+    | some bid => withTx id fun t =>
+      return some (if (t.pBlocks.find? (·.1 == bid)).isSome ||
+        (t.get (bucketizedKey blockIdxBucketID (blockHash bid))).isSome then "1" else "0")
+    | none => return none
+  | ["fk", id, bid] =>
+    match nat? bid with
+    | some bid => withTx id fun t => do return some (← fetchBlockM t bid)
+    | none => return none
+  | ["fh", id, bid] =>
+    match nat? bid with
+    | some bid => withTx id fun t => do return some (← fetchRegionM t bid 0 80)
+    | none => return none
+  | ["fr", id, bid, off, len] =>
+    match nat? bid, nat? off, nat? len with
+    | some bid, some off, some len => withTx id fun t => do return some (← fetchRegionM t bid off len)
+    | _, _, _ => return none
+  | ["pr", id, target] =>
+    match nat? target with
+    | some target => withTx id fun t => do return some (← pruneBlocks id t target)
+    | none => return none
+  | ["fl"] => return some (if ← flush then "ok" else "err:DriverSpecific")
+  | ["ro"] =>
+    -- Close flushes; a failing flush loses the cache (leveldb is closed regardless)
+    let ok ← flush
+    let d ← get
+    if d.curOpen then let _ ← io "close"
+    let r ← reopen
+    if ok then return some r
+    else return some ("close-err:DriverSpecific" ++ (if r == "ok" then "" else r))
+  | ["cp"] | ["cps"] =>
+    if f.head! == "cps" then modify fun d => { d with files := strictFiles d }
+    let d ← get
+    if d.curOpen then let _ ← io "close"
+    let r ← reopen
+    return some r
+  | ["ft", kind, n] =>
+    match nat? n with
+    | some n =>
+      modify fun d => { d with fKind := kind, fN := n, fSeen := 0, fFired := false }
+      return some "ok"
+    | none => return none
+  | ["fc"] =>
+    let d ← get
+    set { d with fKind := "" }
+    return some (if d.fFired then "fired" else "idle")
+  | ["ti", kind, n] | ["tis", kind, n] =>
+    match nat? n with
+    | some n =>
+      modify fun d => { d with iKind := kind, iN := n, iSeen := 0, img := none, iStrict := f.head! == "tis" }
+      return some "ok"
+    | none => return none
+  | ["tx"] =>
+    let d ← get
+    match d.img with
+    | none => return some "noimg"
+    | some img =>
+      -- reopen the image in a scratch copy of the model
+      let d2 : Db := { maxFile := d.maxFile, maxCache := d.maxCache, ldb := img.ldb, files := img.files,
+                       blockIds := d.blockIds, net := d.net }
+      let (r, d2) := reopen.run d2
+      set { d with iKind := "" }
+      if r == "ok" then return some (dumpAll d2 d2.ldb d2.files) else return some r
+  | ["wc"] =>
+    let d ← get
+    return some (toString d.wcFile ++ "/" ++ toString d.wcOff)
+  | ["xf", file, off] =>
+    match nat? file, nat? off with
+    | some file, some off =>
+      let d ← get
+      match fileGet d.files file with
+      | none => return some "nofile"
+      | some b =>
+        if off ≥ b.length then return some "nofile"
+        set { d with files := fileSet d.files file (b.take off ++ [(b.getD off 0) ^^^ 1] ++ b.drop (off + 1)) }
+        return some "ok"
+    | _, _ => return none
+  | ["da"] =>
+    let d ← get
+    return some (dumpAll d (applyToLdb d.ldb d.cKeys d.cRem) d.files)
+  | _ => return none
+
+def runOps (ops : List String) : M (Option (List String)) := do
+  let mut outs : Array String := #[]
+  for op in ops do
+    match ← step op with
+    | some o =>
+      outs := outs.push o
+      if o.startsWith "open-" || (o.startsWith "close-" && o.length > 24) then return some outs.toList
+    | none => return none
+  return some outs.toList
+
+def runDb : List String → String
+  | maxFile :: maxCache :: ops =>
+    match nat? maxFile, nat? maxCache with
+    | some mf, some mc =>
+      let d : Db := { maxFile := mf, maxCache := mc, ldb := initLdb }
+      match (runOps ops).run' d with
+      | some outs => "|".intercalate outs
+      | none => "bad-op"
+    | _, _ => "bad-op"
+  | _ => "bad-op"
 
 end BV.C05.DbModel
